@@ -227,7 +227,9 @@ fn install_hook() {
                 let e = unsafe { &mut *p };
                 if e.in_task {
                     let payload = info.payload();
-                    let msg = if let Some(s) = payload.downcast_ref::<&str>() {
+                    let msg = if let Some(b) = payload.downcast_ref::<DropBomb>() {
+                        b.msg.clone()
+                    } else if let Some(s) = payload.downcast_ref::<&str>() {
                         s.to_string()
                     } else if let Some(s) = payload.downcast_ref::<String>() {
                         s.clone()
@@ -709,6 +711,22 @@ pub(crate) fn unpark(tid: TaskId, epoch: u64) {
             _ => t.park_token = true,
         }
     })
+}
+
+/// A panic payload whose destructor panics in turn when a task with the given name drops it while it is not unwinding:
+/// what happens to `let _ = catch_unwind(..)` when the caught value has a destructor that fails. (Raised with `panic_any`;
+/// the panic hook reports `msg` for it.) Whoever else drops it — the harness, a task that is unwinding — is unaffected.
+pub struct DropBomb {
+    pub msg: String,
+    pub on_task_named: &'static str,
+}
+
+impl Drop for DropBomb {
+    fn drop(&mut self) {
+        if in_task() && !panicking() && with_exec(|e| e.tasks[e.current].name == self.on_task_named) {
+            panic!("{} (destructor of the panic payload)", self.msg);
+        }
+    }
 }
 
 /// Per-task replacement for `std::thread::panicking()`
